@@ -20,3 +20,10 @@ Definition c_maxInt32 := 2147483647.
 Definition c_minStaticWeightLimit := 10.
 Definition c_maxStaticWeightLimit := 100.
 Definition c_ConHashVirtualNodes := 100.
+Definition c_fainN := 5.
+Definition c_failInterval := 5.
+Definition c_checkTime := 60.
+Definition c_overN := 2.
+Definition c_failRatioNum := 1.
+Definition c_failRatioDen := 2.
+Definition c_tryTimeInterval := 30.
